@@ -78,10 +78,13 @@ func (s Script) class(total int) string {
 // sReader is a scripted io.ReadCloser.
 type sReader struct {
 	data []byte
-	pos  int
-	sc   Script
-	ci   int
-	zero int
+	// pat/total: a content generated lazily (pat repeated up to total bytes) instead of data
+	pat   []byte
+	total int
+	pos   int
+	sc    Script
+	ci    int
+	zero  int
 
 	reads, closes, readsAfterClose int
 	errDelivered, eofDelivered     bool
@@ -89,14 +92,26 @@ type sReader struct {
 
 func newReader(data []byte, sc Script) *sReader { return &sReader{data: data, sc: sc} }
 
+// newLazyReader reads total bytes of the repeated pattern without ever holding them.
+func newLazyReader(pat []byte, total int, sc Script) *sReader {
+	return &sReader{pat: pat, total: total, sc: sc}
+}
+
+func (r *sReader) size() int {
+	if r.pat != nil {
+		return r.total
+	}
+	return len(r.data)
+}
+
 func (r *sReader) limit() int {
-	if r.sc.Fault && r.sc.ErrAt < len(r.data) {
+	if r.sc.Fault && r.sc.ErrAt < r.size() {
 		if r.sc.ErrAt < 0 {
 			return 0
 		}
 		return r.sc.ErrAt
 	}
-	return len(r.data)
+	return r.size()
 }
 
 func (r *sReader) Read(p []byte) (int, error) {
@@ -143,7 +158,15 @@ func (r *sReader) Read(p []byte) (int, error) {
 	if n > lim-r.pos {
 		n = lim - r.pos
 	}
-	copy(p, r.data[r.pos:r.pos+n])
+	if r.pat != nil {
+		off := r.pos % len(r.pat)
+		for i := 0; i < n; {
+			k := copy(p[i:n], r.pat[off:])
+			i, off = i+k, 0
+		}
+	} else {
+		copy(p, r.data[r.pos:r.pos+n])
+	}
 	r.pos += n
 	if r.pos >= lim {
 		if r.sc.Fault && r.sc.ErrData {
